@@ -76,6 +76,13 @@ def _sn(s):
     return str(s)
 
 
+def symsplit(off):
+    """canonical name of a symbolic offset: (repr of its non-constant part, its constant part) - independent of how an access is grouped"""
+    k0 = off.get(1, 0)
+    base = Lf({s_: c for s_, c in off.items() if s_ != 1})
+    return repr(base), k0
+
+
 def is_word(v):
     return isinstance(v, list)
 
@@ -232,9 +239,10 @@ class Exec:
             return [gf2.TOP] * (8 * nbytes)
         o = off.const()
         symoff = None
+        s0 = 0
         if o is None:
-            symoff = repr(off)
-            p.events.append(("load-sym", I.id if I else None, obj, symoff, nbytes))
+            symoff, s0 = symsplit(off)
+            p.events.append(("load-sym", I.id if I else None, obj, symoff, nbytes, s0))
         if symoff is None and self.int_cells and self.int_cells(obj, o, nbytes):
             lfc = p.lfmem.get((obj, o, nbytes))
             if lfc is None:
@@ -247,9 +255,10 @@ class Exec:
         bits = []
         for k in range(nbytes):
             if symoff is not None:
-                cell = p.mem.get((obj, (symoff, k)))
+                cell = p.mem.get((obj, (symoff, s0 + k)))
                 if cell is None:
-                    cell = [gf2.TOP] * 8 if (obj[0] == "alloca" and not p.objgen.get(obj)) else gf2.sym_word(self._memsym(p, obj, (symoff, k)), 8)
+                    cell = [gf2.TOP] * 8 if (obj[0] == "alloca" and not p.objgen.get(obj)) else gf2.sym_word(self._memsym(p, obj, (symoff, s0 + k)), 8)
+                    p.events.append(("in-sym", obj, symoff, s0 + k, I.id if I else None))
                 bits.extend(cell)
                 continue
             cell = p.mem.get((obj, o + k))
@@ -273,15 +282,15 @@ class Exec:
             return
         o = off.const()
         if o is None:
-            symoff = repr(off)
+            symoff, s0 = symsplit(off)
             # a store at a symbolic offset may alias any other family of cells of the same object
             for key in [kk for kk in p.mem if kk[0] == obj and not (isinstance(kk[1], tuple) and kk[1][0] == symoff)]:
                 del p.mem[key]
             for k in range(nbytes):
                 b = word[8 * k: 8 * k + 8]
-                p.mem[(obj, (symoff, k))] = b
+                p.mem[(obj, (symoff, s0 + k))] = b
                 if obj[0] != "alloca":
-                    p.events.append(("out-sym", obj, symoff, k, tuple(b), I.id if I else None))
+                    p.events.append(("out-sym", obj, symoff, s0 + k, tuple(b), I.id if I else None))
             return
         for key in [kk for kk in p.mem if kk[0] == obj and isinstance(kk[1], tuple)]:
             del p.mem[key]
@@ -588,6 +597,21 @@ class Exec:
                             del p.lfmem[key]
 
     # conditions are ("icmp", pred, a, b) tuples stored as env values, or Lf/word constants
+    def _divnorm(self, p, d):
+        """use x = c*Q + R: a difference that mentions the quotient or remainder of a division together with the dividend is
+        rewritten in terms of Q and R only (len - 4*(len/4) becomes len % 4)"""
+        for (qs, rs, sa, cb) in p.divs.values():
+            if qs not in d and rs not in d:
+                continue
+            syms = [s_ for s_ in sa if s_ != 1]
+            if len(syms) != 1 or sa[syms[0]] != 1 or syms[0] not in d:
+                continue
+            k0 = sa.get(1, 0)
+            coef = d[syms[0]]
+            # sym = cb*Q + R - k0
+            d = d.add(Lf({syms[0]: 1}), -coef).add(Lf({qs: cb, rs: 1, 1: -k0}), coef)
+        return d
+
     def _decide(self, p, c):
         if isinstance(c, tuple) and c and c[0] == "icmp":
             _, pred, a, b = c
@@ -596,7 +620,7 @@ class Exec:
                 ka, kb = sa.const(), sb.const()
                 if ka is not None and kb is not None:
                     return ir.eval_icmp(pred, ka & ((1 << 64) - 1), kb & ((1 << 64) - 1), 64)
-                d = self.subst(p, a.add(b, -1))
+                d = self._divnorm(p, self.subst(p, a.add(b, -1)))
                 k = d.const()
                 if k is not None and pred in ("eq", "ne"):
                     return (k == 0) == (pred == "eq")
@@ -705,7 +729,7 @@ class Exec:
         if isinstance(c, tuple) and c and c[0] == "icmp":
             _, pred, a, b = c
             if not is_word(a) and not is_word(b):
-                d = self.subst(p, a.add(b, -1))
+                d = self._divnorm(p, self.subst(p, a.add(b, -1)))
                 p.conds.append((pred, d, truth))
                 p.events.append(("cond", pred, repr(d), truth))
                 # derive symbol == constant, or a small finite set of values to split on
